@@ -780,7 +780,12 @@ def range_rules(ck, fb):
             # audited instance: loop over a validated span
             if kind == "Vertex" and "GeometryReaderT" in f.id:
                 # by position: read(decoder, encoding, first, count) - the bound is first + count
-                pf, pc = f.d["params"][2]["n"], f.d["params"][3]["n"]
+                g_ = f
+                while g_.kind == "lambda" and fb.lambda_def(g_):
+                    g_ = fb.lambda_def(g_)[0]
+                if len(g_.d["params"]) < 4:
+                    raise AnalysisBroken("%s: GeometryReaderT::read no longer has the (decoder, encoding, first, count) signature" % g_.where)
+                pf, pc = g_.d["params"][2]["n"], g_.d["params"][3]["n"]
                 ub = upper_bound_guard(facts, arg)
                 ok = any(estr(b).replace(" ", "").strip("()") in ("%s+%s" % (pf, pc), "%s+%s" % (pc, pf)) for b, c in ub)
                 (ck.ok if ok else lambda r, w, t: ck.violate(r, w, t, "R.handle:%s:span" % f.pq))("R.handle", where, what + " is bounded by first+count of the span validated by validate_span (audited instance, V.span)")
